@@ -1,0 +1,52 @@
+// MIT License
+//
+// Copyright (c) 2022-2026 GoAkt Team
+//
+// Permission is hereby granted, free of charge, to any person obtaining a copy
+// of this software and associated documentation files (the "Software"), to deal
+// in the Software without restriction, including without limitation the rights
+// to use, copy, modify, merge, publish, distribute, sublicense, and/or sell
+// copies of the Software, and to permit persons to whom the Software is
+// furnished to do so, subject to the following conditions:
+//
+// The above copyright notice and this permission notice shall be included in all
+// copies or substantial portions of the Software.
+//
+// THE SOFTWARE IS PROVIDED "AS IS", WITHOUT WARRANTY OF ANY KIND, EXPRESS OR
+// IMPLIED, INCLUDING BUT NOT LIMITED TO THE WARRANTIES OF MERCHANTABILITY,
+// FITNESS FOR A PARTICULAR PURPOSE AND NONINFRINGEMENT. IN NO EVENT SHALL THE
+// AUTHORS OR COPYRIGHT HOLDERS BE LIABLE FOR ANY CLAIM, DAMAGES OR OTHER
+// LIABILITY, WHETHER IN AN ACTION OF CONTRACT, TORT OR OTHERWISE, ARISING FROM,
+// OUT OF OR IN CONNECTION WITH THE SOFTWARE OR THE USE OR OTHER DEALINGS IN THE
+// SOFTWARE.
+
+//go:build verif
+
+package xsync
+
+import "time"
+
+// NewTTLMapWithClock is NewTTLMap with an injected clock (unix nanoseconds).
+// Verification harness only.
+func NewTTLMapWithClock[K comparable, V any](ttl time.Duration, now func() int64) *TTLMap[K, V] {
+	m := NewTTLMap[K, V](ttl)
+	m.now = now
+	return m
+}
+
+// VerifShape returns head, len(order) and len(items). Verification harness only.
+func (s *TTLMap[K, V]) VerifShape() (head, orderLen, itemsLen int) {
+	s.mu.Lock()
+	defer s.mu.Unlock()
+	return s.head, len(s.order), len(s.items)
+}
+
+// VerifSlot returns the order index k is mapped to, or -1. Verification harness only.
+func (s *TTLMap[K, V]) VerifSlot(k K) int {
+	s.mu.Lock()
+	defer s.mu.Unlock()
+	if idx, ok := s.items[k]; ok {
+		return idx
+	}
+	return -1
+}
